@@ -103,6 +103,57 @@ def corrupt(c, rng):
     return kind, desc, arrays, kw, must_fail
 
 
+def rule_breaking(rng):
+    """calls that are well-formed as text and consistent in sizes but break one stated rule of their operation
+    (einx_from_namedtensor.py: _semantic_checks_*, bracket placement): all must be rejected -> (kind, fn, desc, arrays, kw)"""
+    pool = ["a", "b", "c", "d", "h", "w", "p", "q", "i", "j", "k", "n", "m"]
+    nm = rng.sample(pool, 8)
+    sz = {x: rng.choice([2, 3, 4]) for x in nm}
+    A, B, C, D, H, W, P, Q = nm
+
+    def z(*axes, dtype=np.float64):
+        return np.zeros(tuple(sz[x] if isinstance(x, str) else x for x in axes), dtype=dtype)
+
+    def zi(*axes):
+        return z(*axes, dtype=np.int64)
+    t = [
+        ("dot_contracted_in_three_inputs", "dot", f"{A} [{B}], [{B}] {C}, [{B}] {D} -> {A} {C} {D}", [z(A, B), z(B, C), z(B, D)]),
+        ("dot_contracted_in_three_inputs", "dot", f"{A} {B}, {B} {C}, {B} {D} -> {A} {C} {D}", [z(A, B), z(B, C), z(B, D)]),
+        ("dot_contracted_in_three_inputs", "dot", f"[{B}], {A} [{B}], [{B}] -> {A}", [z(B), z(A, B), z(B)]),
+        ("dot_contracted_in_one_input", "dot", f"{A} [{B}], {C} -> {A} {C}", [z(A, B), z(C)]),
+        ("dot_single_input", "dot", f"{A} [{B}] -> {A}", [z(A, B)]),
+        ("get_at_two_marked_coordinate_axes", "get_at", f"[{H} {W}] {C}, {P} [{A} {B}] -> {P} {C}", [z(H, W, C), zi(P, 1, 2)]),
+        ("get_at_coordinate_count", "get_at", f"[{H} {W}] {C}, {P} [3] -> {P} {C}", [z(H, W, C), zi(P, 3)]),
+        ("get_at_coordinate_count", "get_at", f"[{H} {W}] {C}, {P} -> {P} {C}", [z(H, W, C), zi(P)]),
+        ("get_at_coordinate_count", "get_at", f"[{H}] {C}, {P} [2] -> {P} {C}", [z(H, C), zi(P, 2)]),
+        ("get_at_coordinate_count", "get_at", f"[{H} {W}] {C}, {P}, {P}, {P} -> {P} {C}", [z(H, W, C), zi(P), zi(P), zi(P)]),
+        ("get_at_single_input", "get_at", f"[{H}] {C} -> {C}", [z(H, C)]),
+        ("sort_needs_exactly_one_bracket", "sort", f"{A} {B}", [z(A, B)]),
+        ("sort_needs_exactly_one_bracket", "sort", f"[{A}] [{B}]", [z(A, B)]),
+        ("sort_needs_exactly_one_bracket", "argsort", f"[{A} {B}] {C}", [z(A, B, C)]),
+        ("update_at_marked_sets_differ", "set_at", f"[{H}] {C}, {P}, {P} {C} -> [{W}] {C}", [z(H, C), zi(P), z(P, C)]),
+        ("update_at_marked_sets_differ", "add_at", f"[{H} {W}] {C}, {P} [2], {P} {C} -> [{H}] {W} {C}", [z(H, W, C), zi(P, 2), z(P, C)]),
+        ("update_at_two_marked_coordinate_axes", "add_at", f"[{H} {W}] {C}, {P} [{A} {B}], {P} {C} -> [{H} {W}] {C}", [z(H, W, C), zi(P, 1, 2), z(P, C)]),
+        ("update_at_target_axis_marked_in_updates", "set_at", f"[{H}] {C}, {P}, {P} [{H}] {C} -> [{H}] {C}", [z(H, C), zi(P), z(P, H, C)]),
+        ("update_at_coordinate_count", "subtract_at", f"[{H} {W}] {C}, {P}, {P} {C} -> [{H} {W}] {C}", [z(H, W, C), zi(P), z(P, C)]),
+        ("update_at_coordinate_count", "set_at", f"[{H}] {C}, {P} [2], {P} {C} -> [{H}] {C}", [z(H, C), zi(P, 2), z(P, C)]),
+        ("argfind_two_marked_outputs", "argmax", f"{A} [{B}] -> {A} [{C} {D}]", [z(A, B)]),
+        ("argfind_marked_count", "argmax", f"{A} [{B}] [{C}] -> {A} [3]", [z(A, B, C)]),
+        ("argfind_marked_count", "argmin", f"{A} [{B}] -> {A} [2]", [z(A, B)]),
+        ("argfind_marked_count", "argmin", f"{A} [{B}] [{C}] -> {A}", [z(A, B, C)]),
+        ("argfind_two_inputs", "argmax", f"{A} [{B}], {C} -> {A}", [z(A, B), z(C)]),
+        ("brackets_not_allowed", "add", f"{A} [{B}], {A} -> {A}", [z(A, B), z(A)]),
+        ("brackets_not_allowed", "id", f"{A} [{B}] -> {A} {B}", [z(A, B)]),
+        ("brackets_not_allowed", "multiply", f"{A} {B}, {A} -> [{A}] {B}", [z(A, B), z(A)]),
+        ("duplicate_vectorized_output_axis", "add", f"{A}, {B} -> {A} {B} {A}", [z(A), z(B)]),
+        ("duplicate_vectorized_output_axis", "sum", f"{A} [{B}] -> {A} {A}", [z(A, B)]),
+        ("reduce_output_has_reduced_axis", "sum", f"{A} [{B}] -> {A} {B}", [z(A, B)]),
+        ("missing_output", "dot", f"{A} [{B}], [{B}] {C} -> ", [z(A, B), z(B, C)]),
+    ]
+    return [(k, fn, d, arrs, {}) for k, fn, d, arrs in t]
+
+
+
 def call_watched(fn_name, desc, arrays, kw, backend=None):
     import einx
     fn = getattr(einx, fn_name)
@@ -176,6 +227,9 @@ def run(ctx):
                       ("sum", "a [b]...", (2, 3, 4)), ("max", "[(a b)]...", (6, 6)), ("flip", "a [b c]...", (2, 3, 4))]:
         arrs = [np.zeros(sh)] if sh else [np.zeros((2, 3)), np.zeros((4, 2), dtype=np.int64)]
         items.append(("derived_text", fn, d, arrs, {}, False, None))
+    for _ in range(6 if ctx.tier == "quick" else 200):
+        for k, fn, d, arrs, kw in rule_breaking(ctx.rng):
+            items.append(("rule:" + k, fn, d, arrs, kw, True, ctx.rng.choice([None, None, "numpy.numpylike", "numpy.einsum"])))
     res = common.pmap(_work, items)
     outcomes = {}
     kinds = {}
@@ -189,8 +243,8 @@ def run(ctx):
         ctx.sample({"corruption": it[0], "fn": it[1], "desc": it[2], "kwargs": {k: repr(v) for k, v in it[4].items()}})
     ctx.coverage.update({
         "evaluations": len(items),
-        "rule": "single-edit corruptions of generated valid calls (14 kinds), the solve_* / matches / check entry points, random token "
-                "strings; distinct_nontrivial = distinct (function, description, argument shapes)",
+        "rule": "single-edit corruptions of generated valid calls (14 kinds), calls breaking one stated rule of their operation (rule:*, all "
+                "must be rejected), the solve_* / matches / check entry points, random token strings; distinct_nontrivial = distinct (function, description, argument shapes)",
         "input_distribution": {"corruption": kinds, "outcome_classes": outcomes},
     })
 
